@@ -32,6 +32,9 @@ var c10newapi = gen.Register(&gen.Check[caseNewAPI]{
 			if msg := pt.ProbeFollowUps(); msg != "" {
 				return gen.Fail("new-api/history", "%s", msg)
 			}
+			if msg := pt.ProbeReaders(); msg != "" {
+				return gen.Fail("new-api/reader-chunking", "%s", msg)
+			}
 		}
 		return nil
 	},
